@@ -204,8 +204,7 @@ def isinstance_(E, v, cls, st):
         if isinstance(ty, TRef):
             E.cls_id(qn)
             E.cls_id(ty.cls)
-            rs = getattr(E, "rec_sub", None) or z3.Function("rec_sub", z3.IntSort(), z3.IntSort(), z3.BoolSort())
-            E.rec_sub = rs
+            rs = E.rec_sub
             return rs(E.cls_of(v.t), z3.IntVal(E.cls_id(qn)))
         return z3.BoolVal(False)
     if ty is OPAQUE:
@@ -511,6 +510,9 @@ def s_any(E, args, kw, st, node):
 
 def s_store(E, args, kw, st, node):
     m, k, v = args
+    if isinstance(m.ty, TMap):
+        yield st, SVal(z3.Store(m.t, E.coerce(k, m.ty.k, st).t, E.coerce(v, m.ty.v, st).t), m.ty)
+        return
     if isinstance(m.ty, TDict):
         dt = E.U.dt(m.ty)
         kk = E.coerce(k, m.ty.k, st)
@@ -598,6 +600,14 @@ def call_method(E, bm, args, kw, st, node):
     tag = getattr(ty, "cls", None) if isinstance(ty, (TDict, TList, TSet)) else None
     if tag is not None:
         k = locate.resolve(tag)[0]
+        dyn = None
+        for kk in k.__mro__:
+            dyn = E.reg.contracts.get(f"dyn:{kk.__name__}.{name}")
+            if dyn is not None:
+                break
+        if dyn is not None and not getattr(st, "static_dispatch", False):
+            yield from apply_contract(E, dyn, None, [SVal(recv.t, recv.ty, lv)] + args, kw, st, node)
+            return
         for kk in k.__mro__:
             if name in kk.__dict__:
                 if kk.__module__ != "builtins":
@@ -646,7 +656,7 @@ def call_method(E, bm, args, kw, st, node):
         qn = f"{kk.__module__}.{kk.__qualname__}.{name}"
         a0 = [PyObj(rec.pyclass)] if kind == "classmethod" else ([] if kind == "staticmethod" else [recv])
         c = E.reg.contracts.get(qn)
-        if c is not None and not c.inline and not ((st.nofork or st.spec) and not c.trusted):
+        if c is not None and not c.inline and not ((st.nofork or st.spec) and not (c.trusted or c.functional)):
             yield from apply_contract(E, c, fn, a0 + args, kw, st, node)
         elif inspect.isfunction(fn) and (fn.__module__ or "").split(".")[0] in ("codemodder", "core_codemods"):
             yield from call_repo(E, fn, qn, a0 + args, kw, st, dropped, node, owner=kk)
@@ -882,16 +892,19 @@ def str_method(E, recv, name, args, kw, st, node):
         sep = E.coerce(args[0], STR, st) if args else E.const(" ")
         f = E.uf("str_split", [S, S], Q.list_sort(S))
         r = SVal(f(recv.t, sep.t), TList(STR))
-        st.assume(Q.Length(r.t) >= 1)
-        st.assume((Q.Length(r.t) == 1) == z3.Not(z3.Contains(recv.t, sep.t)))
-        st.assume(z3.Implies(Q.Length(r.t) == 1, Q.At(r.t, 0) == recv.t))
-        E.assumptions.add("str.split(sep): uninterpreted; len >= 1; len == 1 iff sep not in s (then the only piece is s)")
+        if not getattr(E, "_split_ax", False):
+            E._split_ax = True
+            a, b = z3.String("s!split"), z3.String("sep!split")
+            app = f(a, b)
+            E.axioms.append(z3.ForAll([a, b], z3.And(Q.Length(app) >= 1,
+                                                     (Q.Length(app) == 1) == z3.Not(E.str_contains(a, b)),
+                                                     z3.Implies(Q.Length(app) == 1, Q.At(app, 0) == a)), patterns=[app]))
+        E.assumptions.add("axiom[str.split]: uninterpreted; len >= 1; len == 1 iff sep not in s (then the only piece is s)")
         yield st, r
     elif name in ("strip", "rstrip", "lstrip", "lower", "upper", "title"):
         f = E.uf("str_" + name, [S], S)
         r = SVal(f(recv.t), STR)
-        if name == "rstrip":
-            st.assume(z3.PrefixOf(r.t, recv.t))
+
         E.assumptions.add(f"str.{name}: uninterpreted total function")
         yield st, r
     elif name == "splitlines":
